@@ -6,8 +6,10 @@ namespace rlbox {
 struct VInner { int a; long b; };
 struct VOuter { char c; long l; unsigned long ul; int i; long long ll; long arr[3]; char* p; VInner in; short s; };
 struct VRev { short s; VInner in; char* p; long arr[3]; long long ll; int i; unsigned long ul; long l; char c; };
+enum VColor { V_RED = 1, V_GREEN = 7, V_BLUE = 1000 };
+struct VMisc { VColor col; bool b; unsigned char uc; double d; float fl; int* pa[2]; unsigned short us; };
 }
-using rlbox::VInner; using rlbox::VOuter; using rlbox::VRev;
+using rlbox::VInner; using rlbox::VOuter; using rlbox::VRev; using rlbox::VMisc;
 #define sandbox_fields_reflection_vlib_class_VInner(f, g, ...) \
   f(int, a, FIELD_NORMAL, ##__VA_ARGS__) g()                    \
   f(long, b, FIELD_NORMAL, ##__VA_ARGS__) g()
@@ -31,8 +33,17 @@ using rlbox::VInner; using rlbox::VOuter; using rlbox::VRev;
   f(unsigned long, ul, FIELD_NORMAL, ##__VA_ARGS__) g()         \
   f(long, l, FIELD_NORMAL, ##__VA_ARGS__) g()                   \
   f(char, c, FIELD_NORMAL, ##__VA_ARGS__) g()
+#define sandbox_fields_reflection_vlib_class_VMisc(f, g, ...)  \
+  f(VColor, col, FIELD_NORMAL, ##__VA_ARGS__) g()               \
+  f(bool, b, FIELD_NORMAL, ##__VA_ARGS__) g()                   \
+  f(unsigned char, uc, FIELD_NORMAL, ##__VA_ARGS__) g()         \
+  f(double, d, FIELD_NORMAL, ##__VA_ARGS__) g()                 \
+  f(float, fl, FIELD_NORMAL, ##__VA_ARGS__) g()                  \
+  f(int*[2], pa, FIELD_NORMAL, ##__VA_ARGS__) g()               \
+  f(unsigned short, us, FIELD_NORMAL, ##__VA_ARGS__) g()
 #define sandbox_fields_reflection_vlib_allClasses(f, ...) \
   f(VInner, vlib, ##__VA_ARGS__)                          \
   f(VOuter, vlib, ##__VA_ARGS__)                          \
-  f(VRev, vlib, ##__VA_ARGS__)
+  f(VRev, vlib, ##__VA_ARGS__)                            \
+  f(VMisc, vlib, ##__VA_ARGS__)
 rlbox_load_structs_from_library(vlib);
